@@ -366,6 +366,31 @@ impl VfStream<Offset> {
     }
 }
 
+pub open spec fn str_inc(s: Seq<Duration>) -> bool { forall |i: int, k: int| #![trigger s[i], s[k]] 0 <= i < k < s.len() ==> s[i].val < s[k].val }
+pub open spec fn nondec(s: Seq<Duration>) -> bool { forall |i: int, k: int| #![trigger s[i], s[k]] 0 <= i <= k < s.len() ==> s[i].val <= s[k].val }
+/// interval length d occurs in s
+pub open spec fn has(s: Seq<Duration>, d: int) -> bool { exists |i: int| 0 <= i < s.len() && (#[trigger] s[i]).val == d }
+pub proof fn lemma_has_push(s: Seq<Duration>, x: Duration)
+    ensures forall |a: int| #[trigger] has(s.push(x), a) <==> (has(s, a) || x.val == a)
+{
+    let t = s.push(x);
+    assert forall |a: int| #[trigger] has(t, a) <==> (has(s, a) || x.val == a) by {
+        if has(t, a) {
+            let i = choose |i: int| 0 <= i < t.len() && (#[trigger] t[i]).val == a;
+            if i < s.len() { assert(s[i].val == a); }
+        }
+        if has(s, a) { let i = choose |i: int| 0 <= i < s.len() && (#[trigger] s[i]).val == a; assert(t[i].val == a); }
+        if x.val == a { assert(t[s.len() as int].val == a); }
+    }
+}
+pub proof fn lemma_has_take(s: Seq<Duration>, i: int)
+    requires 0 <= i < s.len()
+    ensures forall |a: int| #[trigger] has(s.take(i + 1), a) <==> (has(s.take(i), a) || s[i].val == a)
+{
+    assert(s.take(i + 1) =~= s.take(i).push(s[i]));
+    lemma_has_push(s.take(i), s[i]);
+}
+
 impl VfStream<Duration> {
     /// `it.max()` over interval lengths (R3: the std fold keeps the last maximum; for a totally ordered value type every maximum is the same value)
     pub fn max(self) -> (r: Option<Duration>)
@@ -388,6 +413,130 @@ impl VfStream<Duration> {
             i = i + 1;
         }
         Some(m)
+    }
+
+    /// `a.merge(b)` (itertools) of two non-decreasing streams: non-decreasing, and no item is lost or invented
+    pub fn merge(self, o: VfStream<Duration>) -> (r: VfStream<Duration>)
+        requires nondec(self.0@), nondec(o.0@)
+        ensures nondec(r.0@), forall |a: int| #[trigger] has(r.0@, a) <==> (has(self.0@, a) || has(o.0@, a))
+    {
+        let mut v: Vec<Duration> = Vec::new();
+        let mut i: usize = 0;
+        let mut j: usize = 0;
+        proof { assert(self.0@.take(0) =~= Seq::<Duration>::empty()); assert(o.0@.take(0) =~= Seq::<Duration>::empty()); }
+        while i < self.0.len() || j < o.0.len()
+            invariant i <= self.0@.len(), j <= o.0@.len(), nondec(self.0@), nondec(o.0@), nondec(v@),
+                forall |a: int| #[trigger] has(v@, a) <==> (has(self.0@.take(i as int), a) || has(o.0@.take(j as int), a)),
+                v@.len() > 0 && i < self.0@.len() ==> v@[v@.len() - 1].val <= self.0@[i as int].val,
+                v@.len() > 0 && j < o.0@.len() ==> v@[v@.len() - 1].val <= o.0@[j as int].val,
+            decreases (self.0@.len() - i) + (o.0@.len() - j)
+        {
+            let take_left = if i >= self.0.len() { false } else if j >= o.0.len() { true } else { self.0[i].val <= o.0[j].val };
+            let ghost v0 = v@;
+            if take_left {
+                proof { lemma_has_push(v@, self.0@[i as int]); lemma_has_take(self.0@, i as int); }
+                v.push(self.0[i]);
+                proof {
+                    assert forall |p: int, q: int| #![trigger v@[p], v@[q]] 0 <= p <= q < v@.len() implies v@[p].val <= v@[q].val by {
+                        if q == v0.len() && p < v0.len() { assert(v0[p].val <= v0[v0.len() - 1].val); }
+                    }
+                    if i + 1 < self.0@.len() { assert(self.0@[i as int].val <= self.0@[i as int + 1].val); }
+                }
+                i = i + 1;
+            } else {
+                proof { lemma_has_push(v@, o.0@[j as int]); lemma_has_take(o.0@, j as int); }
+                v.push(o.0[j]);
+                proof {
+                    assert forall |p: int, q: int| #![trigger v@[p], v@[q]] 0 <= p <= q < v@.len() implies v@[p].val <= v@[q].val by {
+                        if q == v0.len() && p < v0.len() { assert(v0[p].val <= v0[v0.len() - 1].val); }
+                    }
+                    if j + 1 < o.0@.len() { assert(o.0@[j as int].val <= o.0@[j as int + 1].val); }
+                }
+                j = j + 1;
+            }
+        }
+        proof { assert(self.0@.take(self.0@.len() as int) =~= self.0@); assert(o.0@.take(o.0@.len() as int) =~= o.0@); }
+        VfStream(v)
+    }
+
+    /// `it.dedup()` (itertools) of a non-decreasing stream: strictly increasing, same items
+    pub fn dedup(self) -> (r: VfStream<Duration>)
+        requires nondec(self.0@)
+        ensures str_inc(r.0@), forall |a: int| #[trigger] has(r.0@, a) <==> has(self.0@, a)
+    {
+        let mut v: Vec<Duration> = Vec::new();
+        let mut i: usize = 0;
+        proof { assert(self.0@.take(0) =~= Seq::<Duration>::empty()); }
+        while i < self.0.len()
+            invariant i <= self.0@.len(), nondec(self.0@), str_inc(v@),
+                forall |a: int| #[trigger] has(v@, a) <==> has(self.0@.take(i as int), a),
+                i > 0 ==> v@.len() > 0 && v@[v@.len() - 1] == self.0@[i as int - 1],
+                i == 0 ==> v@.len() == 0,
+            decreases self.0@.len() - i
+        {
+            let x = self.0[i];
+            let ghost v0 = v@;
+            proof { lemma_has_take(self.0@, i as int); }
+            if i > 0 && v[v.len() - 1].val == x.val {
+                proof { assert(has(v@, x.v())); }
+            } else {
+                proof { lemma_has_push(v@, x); }
+                v.push(x);
+                proof {
+                    assert forall |p: int, q: int| #![trigger v@[p], v@[q]] 0 <= p < q < v@.len() implies v@[p].val < v@[q].val by {
+                        if q == v0.len() {
+                            assert(self.0@[i as int - 1].val <= self.0@[i as int].val);
+                            if p < v0.len() - 1 { assert(v0[p].val < v0[v0.len() - 1].val); }
+                        }
+                    }
+                }
+            }
+            i = i + 1;
+        }
+        proof { assert(self.0@.take(self.0@.len() as int) =~= self.0@); }
+        VfStream(v)
+    }
+
+    /// `xs.iter().map(f).kmerge()` (itertools) over non-decreasing streams.  The component streams are only known through f's
+    /// contract: `sound(i, a)` bounds what component i may yield, `must(i, a)` what it has to yield.
+    pub fn kmerge_map<T, F: Fn(&T) -> VfStream<Duration>>(xs: &[T], f: F, Ghost(sound): Ghost<spec_fn(int, int) -> bool>, Ghost(must): Ghost<spec_fn(int, int) -> bool>) -> (r: VfStream<Duration>)
+        requires
+            forall |i: int| 0 <= i < xs@.len() ==> #[trigger] f.requires((&xs@[i],)),
+            forall |i: int, s: VfStream<Duration>| 0 <= i < xs@.len() && #[trigger] f.ensures((&xs@[i],), s) ==> nondec(s.0@),
+            forall |i: int, s: VfStream<Duration>, a: int| 0 <= i < xs@.len() && f.ensures((&xs@[i],), s) && #[trigger] has(s.0@, a) ==> #[trigger] sound(i, a),
+            forall |i: int, s: VfStream<Duration>, a: int| 0 <= i < xs@.len() && #[trigger] f.ensures((&xs@[i],), s) && #[trigger] must(i, a) ==> has(s.0@, a),
+        ensures nondec(r.0@),
+            forall |a: int| #[trigger] has(r.0@, a) ==> exists |i: int| 0 <= i < xs@.len() && #[trigger] sound(i, a),
+            forall |i: int, a: int| 0 <= i < xs@.len() && #[trigger] must(i, a) ==> has(r.0@, a),
+    {
+        let mut acc: VfStream<Duration> = VfStream(Vec::new());
+        let mut k: usize = 0;
+        while k < xs.len()
+            invariant k <= xs@.len(), nondec(acc.0@),
+                forall |i: int| 0 <= i < xs@.len() ==> #[trigger] f.requires((&xs@[i],)),
+                forall |i: int, s: VfStream<Duration>| 0 <= i < xs@.len() && #[trigger] f.ensures((&xs@[i],), s) ==> nondec(s.0@),
+                forall |i: int, s: VfStream<Duration>, a: int| 0 <= i < xs@.len() && f.ensures((&xs@[i],), s) && #[trigger] has(s.0@, a) ==> #[trigger] sound(i, a),
+                forall |i: int, s: VfStream<Duration>, a: int| 0 <= i < xs@.len() && #[trigger] f.ensures((&xs@[i],), s) && #[trigger] must(i, a) ==> has(s.0@, a),
+                forall |a: int| #[trigger] has(acc.0@, a) ==> exists |i: int| 0 <= i < k && #[trigger] sound(i, a),
+                forall |i: int, a: int| 0 <= i < k && #[trigger] must(i, a) ==> has(acc.0@, a),
+            decreases xs@.len() - k
+        {
+            let s = f(&xs[k]);
+            let ghost old_acc = acc.0@;
+            proof { assert(f.ensures((&xs@[k as int],), s)); }
+            acc = acc.merge(s);
+            proof {
+                assert forall |a: int| #[trigger] has(acc.0@, a) implies exists |i: int| 0 <= i < k + 1 && #[trigger] sound(i, a) by {
+                    if has(old_acc, a) { let i = choose |i: int| 0 <= i < k && #[trigger] sound(i, a); assert(0 <= i < k + 1 && sound(i, a)); }
+                    else { assert(has(s.0@, a)); assert(sound(k as int, a)); }
+                }
+                assert forall |i: int, a: int| 0 <= i < k + 1 && #[trigger] must(i, a) implies has(acc.0@, a) by {
+                    if i < k { assert(has(old_acc, a)); } else { assert(has(s.0@, a)); }
+                }
+            }
+            k = k + 1;
+        }
+        acc
     }
 }
 
